@@ -1,5 +1,7 @@
 package main
 
+import "strings"
+
 // Frozen decision tables of the journal reader (shared by C05 and C17): the
 // complete set of branch facts under which a journal segment / record is
 // accepted. Each fact was confirmed by reading against SQLite's rules; any
@@ -32,6 +34,42 @@ func (c *Ctx) journalValidity(prefix string) {
 	c.OnlyGuards(prefix+"/segment-accepted", nx, p.Writes("litefs.JournalReader.isValid"), allowed, 4,
 		"a journal segment is accepted (isValid=true, nil returned) exactly under the confirmed decision table: header fully read, not zeroed, magic after the first segment, valid sector size, page size equal to the database's, file at least one sector long past the header offset",
 		"C17/C05: rollback must restore the pre-transaction size for every journal SQLite can leave behind; a narrowed test (e.g. '>=' for '>' on the one-sector journal) skips the resize, a widened one rolls back garbage")
+	{
+		// per-segment fields are read from every segment header, not only the first
+		fn := c.F(nx)
+		later := func(e Edge) bool {
+			return p.EdgeAsserts(e, GP("(0 == p0.offset)", true)) || p.EdgeAsserts(e, GP("(0 < p0.offset)", false))
+		}
+		for _, fld := range []struct{ f, off, why string }{
+			{"nonce", "12", "SQLite draws a new checksum nonce for every journal header: records of later segments fail verification under the first segment's nonce and are silently not rolled back"},
+			{"frameN", "8", "each segment has its own record count"},
+		} {
+			key, rule := prefix+"/per-segment/"+fld.f, "K4 reachability under assumed branch + K6 Origin"
+			desc := "JournalReader.Next reads " + fld.f + " from the header of every segment (also when offset > 0), from header bytes " + fld.off + ".."
+			if !c.need(key, rule, desc, fn, nx) {
+				continue
+			}
+			w := p.Writes("litefs.JournalReader." + fld.f)
+			bad := ""
+			if (&Search{P: p, Fn: fn, Block: later, Tgt: w}).Run() == nil {
+				bad = "the field is not written on any path with offset > 0"
+			}
+			found := false
+			for _, in := range Instrs(fn, w) {
+				if strings.Contains(fieldStoreVal(p, in), u32(fld.off)) {
+					found = true
+				}
+			}
+			if !found {
+				bad = "no write of " + fld.f + " takes its value from header offset " + fld.off
+			}
+			if bad != "" {
+				c.fail(key, rule, desc, fld.why, bad, len(Instrs(fn, w)))
+			} else {
+				c.ok(key, rule, desc, len(Instrs(fn, w)))
+			}
+		}
+	}
 	c.Before(prefix+"/segment-valid-on-success", nx, p.SuccessReturn, p.Writes("litefs.JournalReader.isValid"), 1, "every success exit of Next has marked the journal valid", "rollbackJournal resizes only when IsValid()")
 	rf := "litefs.(*JournalReader).ReadFrame"
 	rr := "internal.ReadFullAt(p0.f, p0.frame, p0.offset)#1"
